@@ -305,9 +305,6 @@ func c12Hint(text string, prog *ast.Program, class string) string {
 		if t.Type == token.IDENT && jsOnlyReserved[t.Literal] {
 			hint = "[JavaScript reserved word " + t.Literal + " (unknown to xjs) taken as an identifier] "
 		}
-		if t.Type == token.INT && i+1 < len(toks) && toks[i+1].Type == token.DOT && toks[i+1].Start.Line == t.Start.Line && toks[i+1].Start.Column == t.Start.Column+len(t.Literal) {
-			hint = "[digits immediately followed by '.': a number for JavaScript, a member access for xjs] "
-		}
 		if t.Type == token.RAW_STRING && t.AfterNewline && i > 0 {
 			switch toks[i-1].Type {
 			case token.IDENT, token.RPAREN, token.RBRACKET, token.STRING, token.RAW_STRING, token.INT, token.FLOAT, token.TRUE, token.FALSE, token.NULL:
@@ -375,7 +372,6 @@ var hintClass = map[string]string{
 	"[declaration as the body of if/while/for] ":                                                                                "declaration-in-single-statement",
 	"[decimal literal with a leading zero and a fraction/exponent] ":                                                            "leading-zero-float",
 	"[function parameter that is not an identifier] ":                                                                           "non-identifier-parameter",
-	"[digits immediately followed by '.': a number for JavaScript, a member access for xjs] ":                                   "number-dot-member",
 	"[line break before a backtick string: JavaScript continues the expression (tagged template), xjs starts a new statement] ": "newline-before-backtick",
 }
 
